@@ -296,3 +296,100 @@ Fixpoint run (e : expr) : res poly :=
   | ESet a k c => bind (run a) (fun p => Ok (psetitem (pcopy p) k c))
   | ECopy a => bind (run a) (fun p => Ok (pcopy p))
   end.
+
+(* ------------------------------------------------------------------ histories on live objects *)
+(* Poly instances are mutable objects (item assignment) that become frozen once hashed.
+   A state is a heap of objects (terms, already-hashed flag) and the caller's variables
+   (slots) pointing into it.  Every operator returns a NEW object that shares nothing with
+   its operands, with one exception in the code: p ** n for a several-term p and n <= 1,
+   n <> 0 is reduce(mul, [p]) = p ITSELF (the same object).  Constructors copy the caller's
+   container.  hash(p), set / dict insertion freeze p: p[k] = c then raises TypeError. *)
+Inductive unop := UDiff (n : nat) | UInt | UCopy | UPos | UNeg | UAdd0 | UMul1 | UPow (n : Z) | UPoly.
+Inductive binop := BAdd | BSub | BMul | BCall.
+Inductive hop :=
+| HNew (e : expr)                    (* v_new = <expression over literals> *)
+| HUn (u : unop) (i : nat)           (* v_new = op(v_i) *)
+| HBin (b : binop) (i j : nat)       (* v_new = v_i op v_j *)
+| HSet (i : nat) (k : Z) (c : Qc)    (* v_i[k] = c *)
+| HHash (l : list nat)               (* len({v_i for i in l}) : hashes every listed object *)
+| HNop.                              (* the caller mutates a container it built an object from *)
+Record hstate := HS { objs : list (poly * bool); slots : list nat }.
+Definition hinit : hstate := HS [] [].
+Definition obj_of (s : hstate) (i : nat) : option (nat * (poly * bool)) :=
+  match nth_error (slots s) i with
+  | Some o => match nth_error (objs s) o with Some x => Some (o, x) | None => None end
+  | None => None
+  end.
+Definition alloc (s : hstate) (p : poly) : hstate :=
+  HS (objs s ++ [(p, false)]) (slots s ++ [List.length (objs s)]).
+Definition alias (s : hstate) (o : nat) : hstate := HS (objs s) (slots s ++ [o]).
+Fixpoint upd {A} (l : list A) (n : nat) (x : A) : list A :=
+  match l, n with
+  | [], _ => []
+  | _ :: r, O => x :: r
+  | h :: r, S n' => h :: upd r n' x
+  end.
+(* result of a unary operator: a fresh value, or the operand itself *)
+Inductive uval := UFresh (p : poly) | USelf.
+Definition run_unop (u : unop) (p : poly) : res uval :=
+  match u with
+  | UDiff n => Ok (UFresh (pdiff p n))
+  | UInt => match pint p with Ok r => Ok (UFresh r) | Raise e => Raise e end
+  | UCopy => Ok (UFresh (pcopy p))
+  | UPos => Ok (UFresh (ppos p))
+  | UNeg => Ok (UFresh (pneg p))
+  | UAdd0 => Ok (UFresh (padd p (pconst 0)))
+  | UMul1 => Ok (UFresh (pmul p (pconst 1)))
+  | UPow n => if negb (n =? 0)%Z && (2 <=? List.length p)%nat && (n <=? 1)%Z then Ok USelf
+              else Ok (UFresh (ppow p n))
+  | UPoly => Ok (UFresh (pcopy p))
+  end.
+Definition run_binop (b : binop) (p q : poly) : poly :=
+  match b with BAdd => padd p q | BSub => psub p q | BMul => pmul p q | BCall => pcompose p q end.
+(* number of distinct polynomials (under ==) among a list: the size of the set *)
+Fixpoint distinct_count (l : list poly) : nat :=
+  match l with
+  | [] => O
+  | p :: r => if existsb (fun q => peq q p) r then distinct_count r else S (distinct_count r)
+  end.
+Definition hstep (s : hstate) (op : hop) : hstate * res Z :=
+  match op with
+  | HNew e => match run e with Ok p => (alloc s p, Ok 0%Z) | Raise x => (s, Raise x) end
+  | HUn u i =>
+      match obj_of s i with
+      | Some (o, (p, _)) =>
+          match run_unop u p with
+          | Ok (UFresh r) => (alloc s r, Ok 0%Z)
+          | Ok USelf => (alias s o, Ok 0%Z)
+          | Raise x => (s, Raise x)
+          end
+      | None => (s, Raise "IndexError")
+      end
+  | HBin b i j =>
+      match obj_of s i, obj_of s j with
+      | Some (_, (p, _)), Some (_, (q, _)) => (alloc s (run_binop b p q), Ok 0%Z)
+      | _, _ => (s, Raise "IndexError")
+      end
+  | HSet i k c =>
+      match obj_of s i with
+      | Some (o, (p, true)) => (s, Raise "TypeError")
+      | Some (o, (p, false)) => (HS (upd (objs s) o (psetitem p k c, false)) (slots s), Ok 0%Z)
+      | None => (s, Raise "IndexError")
+      end
+  | HHash l =>
+      let os := flat_map (fun i => match obj_of s i with Some (o, _) => [o] | None => [] end) l in
+      let ps := flat_map (fun i => match obj_of s i with Some (_, (p, _)) => [p] | None => [] end) l in
+      (HS (fold_left (fun ob o => match nth_error ob o with Some (p, _) => upd ob o (p, true) | None => ob end) os (objs s))
+          (slots s), Ok (Z.of_nat (distinct_count ps)))
+  | HNop => (s, Ok 0%Z)
+  end.
+(* what the caller sees: the terms behind every variable *)
+Definition view (s : hstate) : list poly :=
+  flat_map (fun i => match obj_of s i with Some (_, (p, _)) => [p] | None => [] end) (seq 0 (List.length (slots s))).
+Definition hashed_view (s : hstate) : list bool :=
+  flat_map (fun i => match obj_of s i with Some (_, (_, h)) => [h] | None => [] end) (seq 0 (List.length (slots s))).
+Fixpoint hrun (s : hstate) (ops : list hop) : list (hstate * res Z) :=
+  match ops with
+  | [] => []
+  | op :: r => let '(s', f) := hstep s op in (s', f) :: hrun s' r
+  end.
